@@ -117,3 +117,17 @@ package diagnostic
 //@ loop 1 invariant conflicts-untouched (and (= e.conflicts (old e.conflicts)) (heap-unchanged (elems e.conflicts)))
 //@ loop 1 invariant position-of-the-previous-reason (or (= r nonnilReason)
 //@    (exists ((p inference.ExplainedBool)) (and (not (isnil p)) (= r (mcall DeeperReason p)) (= reportPosition (mcall Position p)))))
+
+//@ -- C14/C18: a single-assertion conflict is reported at the consumer expression, with the file name relativised
+//@ -- to the start-up directory exactly once; exactly one conflict is appended.
+//@ func (*go.uber.org/nilaway/annotation.FullTrigger).Reprs
+//@ nobody
+//@ func (*Engine).AddSingleAssertionConflict
+//@ prop C14 C18 C13
+//@ requires (and (not (= e nil)) (not (= e.pass nil)) (not (= e.pass.Pass nil)) (not (= trigger.Consumer nil)) (not (isnil trigger.Consumer.Expr)))
+//@ modifies *
+//@ ensures exactly-one-conflict-appended (= (len e.conflicts) (+ (old (len e.conflicts)) 1))
+//@ ensures reported-at-the-consumer-expression (let ((raw (callres "FileSet).Position")) (c (idx e.conflicts (- (len e.conflicts) 1))))
+//@    (and (= (callarg "FileSet).Position" 0 1) (mcall Pos (old trigger.Consumer.Expr)))
+//@         (= (. c position Filename) (call |go.uber.org/nilaway/util/tokenhelper.RelToCwd| (. raw Filename)))
+//@         (= (. c position Line) (. raw Line)) (= (. c position Column) (. raw Column)) (= (. c position Offset) (. raw Offset))))
